@@ -21,6 +21,32 @@ def static_discovery(r):
     return sc
 
 
+def directed_renewal(r):
+    """A finite-TTL offer that is replaced before its deadline - by a plain refresh, or after a detected reboot / connection
+    loss - by an offer with a LATER deadline (longer or infinite TTL); the run extends beyond the first deadline."""
+    from .. import conv
+    T = scen.T
+    cfg = list(scen.timings(r))
+    cfg[11] = r.choice([0, 5 * scen.MS])
+    peers = {1: scen.Peer(1)}
+    svc = r.choice(scen.SERVICES)
+    regs = [(0, (1, [5, [0, 0]]))] if r.random() < 0.5 else [(0, (1, [3, conv.s_service(scen.FILTERS[0] if svc.service_id == 0x1111 else scen.FILTERS[3]), [0, 1]]))]
+    ttl1 = r.choice([1, 2])
+    t0 = r.choice([1, T // 4])
+    t1 = t0 + r.randrange(1, ttl1 * T)
+    how = r.choice(["refresh", "reboot", "reboot", "connlost"])
+    ttl2 = r.choice([3, 0xFFFFFF])
+    events = list(regs)
+    events.append((t0, (0, 1, False, peers[1].datagram([svc.create_offer_entry(ttl1)], False))))
+    if how == "reboot":
+        peers[1].reboot()
+    if how == "connlost":
+        events.append((t1, (1, [2])))
+        t1 += r.choice([1, T // 8])
+    events.append((t1, (0, 1, False, peers[1].datagram([svc.create_offer_entry(ttl2)], False))))
+    return dict(cfg=tuple(cfg), insts=[], draws=[0] * 4, events=events, end=t0 + ttl1 * T + 2 * T, rev=r.random() < 0.3, fuel=20000)
+
+
 def run(ctx):
     r = ctx.rng
     quick = ctx.tier == "quick"
@@ -34,7 +60,7 @@ def run(ctx):
     n = 300 if quick else 12000
     scs = stackprop.corpus_scenarios("C05")
     for k in range(n):
-        scs.append(static_discovery(r) if k % 2 == 0 else scen.discovery_scenario(r))
+        scs.append(directed_renewal(r) if k % 10 == 9 else static_discovery(r) if k % 2 == 0 else scen.discovery_scenario(r))
     if not quick:
         for k in range(3000):
             scs.append(static_discovery(r) if k % 2 == 0 else scen.discovery_scenario(r, small=True, length=r.randint(1, 5)))
